@@ -52,6 +52,31 @@ TABLE = {
  'C20': dict(property='C20', breaks='the auth-info error text quotes the "scheme" of a non-Basic Proxy-Authorization value: for a value without a space that is the whole token',
              needs='a tunnel request whose Proxy-Authorization value has no space before the secret (bare base64 token, `Basic:tok`, `Basic<TAB>tok`); logged at debug by tunnel.rs', checks=['C20'],
              strengthened='missed at first: the error-path sweep had no Proxy-Authorization value without a space between scheme and secret. Added bare token, `Basic:tok`, `Basic<TAB>tok`, `Basictok`, `Negotiate,tok`. Caught afterwards. (The seeding agent also pointed at an existing leak, ConnectionMeta Debug: see known_findings.json fixed C20.)'),
+ 'C01b': dict(property='C01', breaks='registry authenticator compares tokens with a "constant-time" helper that zips without a length check: any token that is a prefix of a registered one (or extends it) authenticates',
+             needs='a presented token in a prefix relation with a registered base64 token (truncated, or user:pass extended when its length is a multiple of 3)', checks=['C01']),
+ 'C02b': dict(property='C02', breaks='HTTP/2 RequestStream::consume returns early once the client ended its stream: connection-level flow-control credit for the last forwarded bytes is never returned',
+             needs='an HTTP/2 client that sends END_STREAM with its last DATA frame while the tunnel stays open for the download, repeated until the withheld credit exhausts the connection window',
+             checks=['C02'], strengthened='missed at first: no scenario kept half-closed tunnels open on one session. Added the C02 L2 scenario "many half-closed tunnels on one HTTP/2 session through a 64 KiB connection window". Caught afterwards (session stalls).'),
+ 'C04b': dict(property='C04', breaks='TCP/TLS path passes an empty client random instead of "unavailable": rules that need a random no longer fail closed',
+             needs='a ClientHello whose random the peek cannot extract (hello split over several TLS records) and a rule list with a client-random rule whose skipping yields allow',
+             checks=['C04'], strengthened='missed at first: the L2 wiring part had no connection with an unavailable client random. Added rustls clients with max_fragment_size = 64 against rule lists with client-random rules (must be dropped with zero server bytes) and controls. Caught afterwards.'),
+ 'C05b': dict(property='C05', breaks='<credentials>.<main host> lookup by string suffix without a label boundary: xmain.test, a.c.main.test accepted; nested main hosts order-dependent',
+             needs='an SNI that ends with a main host name without being <one label>.<main host>', checks=['C05']),
+ 'C07b': dict(property='C07', breaks='follow-up datagrams on a port-53 flow are not counted as pending queries: the socket is released after the first answer although more are outstanding',
+             needs='two or more client datagrams outstanding on one port-53 flow before the first answer arrives',
+             checks=['C07'], strengthened='missed at first: the Dns operation sent one query at a time. Added a slow port-53 server (answers after 120 ms) and the DnsBurst operation (2-3 queries outstanding at once); port-53 servers now have per-history loopback addresses so every parallel history exercises them. Caught afterwards.'),
+ 'C10b': dict(property='C10', breaks='the establishment timeout yields ConnectionError::Io(TimedOut) instead of Timeout: 502 with X-Warning 300 instead of 302',
+             needs='a connect attempt that stays pending longer than connection_establishment_timeout', checks=['C10', 'C14']),
+ 'C13b': dict(property='C13', breaks='TlsHostsSettings::validate checks speedtest hosts against a discarded clone of the name set: a name shared by a speedtest host and a reverse-proxy host is accepted',
+             needs='the same host name in exactly the speedtest and reverse-proxy classes',
+             checks=['C13'], strengthened='missed at first: the start-up matrix had only main/ping and main/main duplicates. Now every pair of the four host classes (and a control with four distinct names). Caught afterwards.'),
+ 'C14b': dict(property='C14', breaks='outbound connect limited by tls_handshake_timeout instead of connection_establishment_timeout',
+             needs='the two settings different and a connect delay between them (or never completing) with the answer time observed on the virtual clock', checks=['C14']),
+ 'C17b': dict(property='C17', breaks='forwarded Host header loses its port when the client supplied its own Host header',
+             needs='a target authority with an explicit port and a client-supplied Host header', checks=['C17']),
+ 'C18b': dict(property='C18', breaks='reverse proxy appends its X-Original-Protocol to a client-supplied one instead of replacing it',
+             needs='a reverse-proxied request in which the client sends its own X-Original-Protocol header, observed at the origin',
+             checks=['C18'], strengthened='missed at first: the steering attempts only used Host. Added client-supplied X-Original-Protocol values; the origin must see exactly one header with the endpoint\'s value. Caught afterwards.'),
 }
 def sigs(name, check, tier='quick'):
     p = f'{V}/.work/seed-{name}-{check}-{tier}.out'
